@@ -599,4 +599,19 @@ def buildRhs'U (u : UCfg') (sys : Sys) : Except BuildErr OdeSys' :=
     | none => buildRhs' u.cfg sys
     | some (ordered, keys) => if ordered then buildTail' u.cfg sys keys else .error .valueError
 
+/-- `substance_symbols` given as a PLAIN `dict` over the keys `plain` (any insertion order): the order check of ode.py 608-612
+    applies to `OrderedDict`s only, and the dependent symbols are looked up BY KEY
+    (`[substance_symbols[key] for key in rsys.substances]`, evaluated after `rsys.rates(...)` and before `SymbolicSys(...)` runs), so
+    the insertion order is irrelevant; a missing substance key is a KeyError unless an earlier refusal wins -/
+def buildRhs'P (u : UCfg') (plain : Option (List String)) (sys : Sys) : Except BuildErr OdeSys' :=
+  match plain with
+  | none => buildRhs'U u sys
+  | some ks =>
+    if sys.subst.all (fun k => decide (k ∈ ks)) then buildRhs'U u sys
+    else
+      match buildRhs'U u sys with
+      | .ok _ => .error .keyError
+      | .error .attributeError => .error .keyError
+      | .error e => .error e
+
 end ChemModel.OdeBuild
